@@ -73,11 +73,8 @@ package kmipclient
 //@ spec noDiscovery(r *kmip.ResponseMessage) bool = oneItem(r) && r.BatchItem[0].ResultStatus == kmip.ResultStatusOperationFailed && r.BatchItem[0].ResultReason == kmip.ResultReasonOperationNotSupported
 //@ spec globalsInit() bool = kmip.V1_0.ProtocolVersionMajor == 1 && kmip.V1_0.ProtocolVersionMinor == 0
 
-//@ func (*kmip.ResponseBatchItem).Err
-//@   trusted
-//@   requires bi != nil
-//@   ensures (bi.ResultStatus != kmip.ResultStatusSuccess) == (r0 != nil)
-//@   pure
+//@ spec transportErr(c *Client) error = ite(len(c.middlewares) == 0, rtErr, cmwErr)
+//@ spec counted(r *kmip.ResponseMessage, n int) bool = r != nil && int(r.Header.BatchCount) == len(r.BatchItem) && len(r.BatchItem) == n
 
 //@ func (*Client).negotiateVersion
 //@   requires clientOK(c) && len(c.supportedVersions) > 0 && globalsInit()
@@ -108,6 +105,7 @@ package kmipclient
 //@   ensures sent(c, old(cmwCalls), old(rtCalls)) && sentVersion == *c.version
 //@   ensures r1 == nil ==> len(r0) == len(payloads) && lastResp(c) != nil && int(lastResp(c).Header.BatchCount) == len(payloads) && r0 == lastResp(c).BatchItem
 //@   ensures ite(len(c.middlewares) == 0, rtErr, cmwErr) != nil ==> r1 != nil
+//@   ensures transportErr(c) == nil && counted(lastResp(c), len(payloads)) ==> r1 == nil
 //@   ghostmod cmwCalls, cmwSelf, cmwNext, cmwCtx, cmwMsg, cmwRet, cmwErr, rtCalls, rtCtx, rtMsg, rtRet, rtErr, sentVersion, transmissions, dials, lastErrRetryable
 //@   loop 0 invariant -1 <= rangeindex && rangeindex < len(opts) && msg.Header.ProtocolVersion == *c.version && len(msg.BatchItem) == len(payloads)
 
@@ -118,14 +116,28 @@ package kmipclient
 //@   requires clientOK(c) && c.version != nil && payload != nil
 //@   ensures r1 == nil ==> oneItemResp(lastResp(c)) && lastResp(c).BatchItem[0].ResultStatus == kmip.ResultStatusSuccess && r0 == lastResp(c).BatchItem[0].ResponsePayload
 //@   ensures r1 != nil ==> r0 == nil
-//@   ghostmod cmwCalls, cmwSelf, cmwNext, cmwCtx, cmwMsg, cmwRet, cmwErr, rtCalls, rtCtx, rtMsg, rtRet, rtErr, transmissions, dials, lastErrRetryable
+//@   ensures transportErr(c) == nil && counted(lastResp(c), 1) && lastResp(c).BatchItem[0].ResultStatus == kmip.ResultStatusSuccess ==> r1 == nil
+//@   ensures transportErr(c) == nil && counted(lastResp(c), 1) && lastResp(c).BatchItem[0].ResultStatus != kmip.ResultStatusSuccess ==> r1 != nil
+//@   ensures transportErr(c) == nil && counted(lastResp(c), 1) && lastResp(c).BatchItem[0].ResultStatus != kmip.ResultStatusSuccess ==> r1 == itemErrRet
+//@   ensures transportErr(c) == nil && counted(lastResp(c), 1) && lastResp(c).BatchItem[0].ResultStatus != kmip.ResultStatusSuccess ==> itemErrStatus == lastResp(c).BatchItem[0].ResultStatus && itemErrReason == lastResp(c).BatchItem[0].ResultReason && itemErrMsg == lastResp(c).BatchItem[0].ResultMessage
+//@   ghostmod cmwCalls, cmwSelf, cmwNext, cmwCtx, cmwMsg, cmwRet, cmwErr, rtCalls, rtCtx, rtMsg, rtRet, rtErr, transmissions, dials, lastErrRetryable, itemErrRet, itemErrStatus, itemErrReason, itemErrMsg
+
+// a batch result is unwrapped to an error exactly when one of its items failed
+//@ func (BatchResult).Unwrap
+//@   ensures (exists k int :: 0 <= k && k < len(br) && br[k].ResultStatus != kmip.ResultStatusSuccess) ==> r1 != nil
+//@   ensures (forall k int :: 0 <= k && k < len(br) ==> br[k].ResultStatus == kmip.ResultStatusSuccess) ==> r1 == nil
+//@   ensures len(r0) == len(br)
+//@   ghostmod itemErrRet, itemErrStatus, itemErrReason, itemErrMsg
+//@   loop 0 invariant -1 <= rangeindex && rangeindex < len(br0) && len(res) == len(br0)
+//@   loop 0 invariant forall j int :: 0 <= j && j < len(errs) ==> errs[j] != nil
+//@   loop 0 invariant (len(errs) > 0) == (exists j int :: 0 <= j && j <= rangeindex && br0[j].ResultStatus != kmip.ResultStatusSuccess)
 
 //@ spec oneItemResp(r *kmip.ResponseMessage) bool = r != nil && len(r.BatchItem) == 1
 
 // every instantiation Executor[Req, Resp]: a nil error comes with a payload of the response type
 //@ func (Executor[Req, Resp]).ExecContext
 //@   requires clientOK(ex.client) && ex.client.version != nil
-//@   ghostmod cmwCalls, cmwSelf, cmwNext, cmwCtx, cmwMsg, cmwRet, cmwErr, rtCalls, rtCtx, rtMsg, rtRet, rtErr, transmissions, dials, lastErrRetryable
+//@   ghostmod cmwCalls, cmwSelf, cmwNext, cmwCtx, cmwMsg, cmwRet, cmwErr, rtCalls, rtCtx, rtMsg, rtRet, rtErr, transmissions, dials, lastErrRetryable, itemErrRet, itemErrStatus, itemErrReason, itemErrMsg
 
 // ---------------------------------------------------------------------------
 // connection faults, sequential clauses (C11)
